@@ -49,8 +49,8 @@ def execTableOp (st : DState) (env0 : Env) (name : String) (args : List String) 
   | "into_iter", [k] => no <| resOut (Map.intoIter cfg env (nat! k) w) elems w
   | "drain_fold", [k] => no <| resOut (Map.drain cfg (foldEnv env (nat! k) w) (if nat! k = 0 then w.t.items else nat! k) false w) elems w
   | "into_iter_fold", [k] => no <| resOut (Map.intoIter cfg (foldEnv env (nat! k) w) (if nat! k = 0 then w.t.items else nat! k) w) elems w
-  | "iter", p :: _ =>
-    match Map.iterObserve cfg w.t (nat! p) with
+  | "iter", p :: rest =>
+    match iterObserveW cfg w.t (match rest with | ["iter_mut"] => .tableIterMut | ["values_mut"] => .tableIterMut | _ => .tableIter) (nat! p) with
     | .error f => ({ ret := s!"FAULT({f})", w := w }, true, none)
     | .ok (pre, folded, rest, hints) =>
       ({ ret := s!"pre={fmtNats (ix pre)} fold={fmtNats (ix folded)} rest={fmtNats (ix rest)} sh={fmtNats hints}", w := w },
